@@ -155,7 +155,7 @@ func drawOptInt(t *rapid.T, l string) *int64 {
 		v := rapid.SampledFrom([]int64{0, 1, -1, 23, 24, -24, -25, 255, 256, 65535, 65536, 1 << 32, -(1 << 32), 1<<53 - 1, -(1 << 53)}).Draw(t, l)
 		return &v
 	}
-	v := rapid.Int64Range(-(1 << 53), 1<<53).Draw(t, l)
+	v := rapid.Int64Range(-(1<<53), 1<<53).Draw(t, l)
 	return &v
 }
 func drawOptStr(t *rapid.T, l string) *string {
@@ -180,7 +180,7 @@ func drawInt(t *rapid.T, l string) int64 {
 	if genBool.Draw(t, l+".zero") {
 		return 0
 	}
-	return rapid.Int64Range(-(1 << 53), 1<<53).Draw(t, l)
+	return rapid.Int64Range(-(1<<53), 1<<53).Draw(t, l)
 }
 func drawStr(t *rapid.T, l string) string {
 	if genBool.Draw(t, l+".zero") {
